@@ -222,6 +222,15 @@ func c08(c *Ctx) {
 		plans = c.N(6, 20)
 	}
 	c08DiscoveryAtDeadline(c)
+	c08SharedArguments(c)
+	// the listener of an application whose event handler is slow to come back, shut down while another event is waiting: runs in the
+	// background for the whole batch (one batch only: it takes as long as the handler does)
+	var slow sync.WaitGroup
+	if c.Mode == "plain" && c.MBatch == 0 {
+		slow.Add(1)
+		go func() { defer slow.Done(); c08SlowHandlerShutdown(c) }()
+	}
+	defer slow.Wait()
 	for p := 0; p < plans && !c08Hung.Load(); p++ {
 		c08Plan(c, p, T)
 	}
@@ -1072,5 +1081,105 @@ func c08DiscoveryAtDeadline(c *Ctx) {
 			}
 		}
 		time.Sleep(50 * time.Millisecond) // the rest of the stream goes nowhere
+	}
+}
+
+// c08SlowHandlerShutdown: "the event listener while it is being shut down". The event handler is busy with event 1 (a slow database,
+// say) and stays busy for 7 s; event 2 has been read from the socket and waits to be handed over; the stop signal arrives. Whenever
+// Listen returns, nothing in the library may blow up when the handler finally comes back and the waiting event is dealt with.
+func c08SlowHandlerShutdown(c *Ctx) {
+	port := freePort("127.0.0.3")
+	if port == 0 {
+		return
+	}
+	addr := fmt.Sprintf("127.0.0.3:%d", port)
+	u := mkClient(ClientCfg{Bind: "127.0.0.1:0", Listen: addr, Timeout: time.Second})
+	release := make(chan struct{})
+	var connected, events atomic.Int64
+	l := &c04Listener{connected: &connected, errRet: true, on: func(*types.Status) {
+		if events.Add(1) == 1 {
+			<-release
+		}
+	}}
+	q := make(chan os.Signal, 1)
+	done := make(chan error, 1)
+	go func() { done <- u.Listen(l, q) }()
+	for i := 0; i < 2000 && connected.Load() == 0; i++ {
+		time.Sleep(time.Millisecond)
+	}
+	conn, err := net.Dial("udp4", addr)
+	if err != nil || connected.Load() == 0 {
+		close(release)
+		q <- os.Interrupt
+		return
+	}
+	defer conn.Close()
+	for k := 0; k < 3; k++ {
+		conn.Write(c17Event(0x0c000001, uint32(k+1)))
+		time.Sleep(5 * time.Millisecond)
+	}
+	for i := 0; i < 2000 && events.Load() == 0; i++ {
+		time.Sleep(time.Millisecond)
+	}
+	time.Sleep(20 * time.Millisecond)
+	q <- os.Interrupt
+	c.Res.Eval(1)
+	c.Res.DistinctKey("slow-handler-shutdown")
+	c.Res.Count("alongside:listener-shut-down-while-its-handler-was-busy-for-7s", 1)
+	returnedEarly := false
+	select {
+	case <-done:
+		returnedEarly = true
+	case <-time.After(7 * time.Second):
+	}
+	close(release)
+	if !returnedEarly {
+		select {
+		case err := <-done:
+			if err != nil {
+				c.Res.Violate("C08:listen-stop", "Listen returned an error when stopped while its handler was busy: "+err.Error(), nil, -7)
+			}
+		case <-time.After(5 * time.Second):
+			c.Res.Violate("C08:listen-stop", "Listen did not return within 5 s of the handler coming back (stop signal sent 7 s earlier)", nil, -7)
+		}
+	}
+	time.Sleep(300 * time.Millisecond) // whatever was still waiting inside the library gets its turn now
+}
+
+// c08SharedArguments: several goroutines call SetDoorPasscodes at the same time, each with its own section of one list the application
+// keeps for all doors (sub-slices with spare capacity behind them). The library only reads its arguments: under the race detector
+// no report, and afterwards the list is what it was. In-memory transport (the network is not the point here).
+func c08SharedArguments(c *Ctx) {
+	u, d := mkMemClient(ClientCfg{Broadcast: "192.168.1.255:60000"})
+	op := rm.FindOp("SetDoorPasscodes")
+	d.Script = func(inv adapter.Invocation) ([][]byte, error) {
+		reply := okReply(op, uint32(inv.Request[4])|uint32(inv.Request[5])<<8|uint32(inv.Request[6])<<16|uint32(inv.Request[7])<<24)
+		reply[8] = 1
+		return [][]byte{reply}, nil
+	}
+	shared := make([]uint32, 16)
+	for i := range shared {
+		shared[i] = uint32(100000 + i)
+	}
+	want := append([]uint32{}, shared...)
+	rounds := c.N(300, 3000)
+	var wg sync.WaitGroup
+	for g := 0; g < 4; g++ {
+		wg.Add(1)
+		go func(g int) {
+			defer wg.Done()
+			defer func() { recover() }()
+			section := shared[g*4 : g*4+1+g%4] // 1..4 codes, the other doors' codes behind them in the same array
+			for k := 0; k < rounds; k++ {
+				u.SetDoorPasscodes(uint32(405419896+g), uint8(g+1), section...)
+			}
+		}(g)
+	}
+	wg.Wait()
+	c.Res.Eval(1)
+	c.Res.DistinctKey("shared-arguments", "SetDoorPasscodes")
+	c.Res.Count("concurrent-calls-on-sections-of-one-argument-list", int64(4*rounds))
+	if fmt.Sprint(shared) != fmt.Sprint(want) {
+		c.Res.Violate("C08:argument-overwritten", fmt.Sprintf("SetDoorPasscodes called concurrently with sections of one list: the list is %v afterwards, it was %v", shared, want), nil, -8)
 	}
 }
